@@ -18,7 +18,7 @@ def T(module, *names, partial=False):
           "Kanzi.Properties.C12_ans1": "Kanzi.C12", "Kanzi.Properties.C12_cm": "Kanzi.C12", "Kanzi.Properties.C13_srt": "Kanzi.C13", "Kanzi.Properties.C01_blockgen": "Kanzi.C01gen",
           "Kanzi.Properties.C19_paths": "Kanzi.C19", "Kanzi.Properties.C13_alias": "Kanzi.C13", "Kanzi.Properties.C13_lzp": "Kanzi.C13", "Kanzi.Properties.C13_fsd": "Kanzi.C13", "Kanzi.Properties.C12_binary": "Kanzi.C12", "Kanzi.Properties.C12_fpaq": "Kanzi.C12",
           "Kanzi.Properties.C12_cm_codec": "Kanzi.C12", "Kanzi.Properties.C13_lz": "Kanzi.C13", "Kanzi.Properties.C13_lz_consts": "Kanzi.ConstsTie",
-          "Kanzi.Properties.C12_tpaq": "Kanzi.C12", "Kanzi.Properties.C12_tpaq_codec": "Kanzi.C12", "Kanzi.Properties.C12_huffman": "Kanzi.C12", "Kanzi.Properties.C13_utf": "Kanzi.C13", "Kanzi.Properties.C13_bwts": "Kanzi.C13", "Kanzi.Properties.C01_blockgen2": "Kanzi.C01gen", "Kanzi.Properties.C13_exe": "Kanzi.C13"}[module]
+          "Kanzi.Properties.C12_tpaq": "Kanzi.C12", "Kanzi.Properties.C12_tpaq_codec": "Kanzi.C12", "Kanzi.Properties.C12_huffman": "Kanzi.C12", "Kanzi.Properties.C13_utf": "Kanzi.C13", "Kanzi.Properties.C13_bwts": "Kanzi.C13", "Kanzi.Properties.C01_blockgen2": "Kanzi.C01gen", "Kanzi.Properties.C13_exe": "Kanzi.C13", "Kanzi.Properties.C13_bwt": "Kanzi.C13"}[module]
     return [{"module": module, "name": n if n.startswith("Kanzi.") else ns + "." + n, "partial": partial or n.endswith("_partial")} for n in names]
 
 
@@ -74,6 +74,7 @@ UTF = {"name": "utf", "kmodel": "utf", "timeout": 7200}
 BWTS = {"name": "bwts", "kmodel": "bwts", "timeout": 7200}
 IMAGEGEN2 = {"name": "imagegen2", "kmodel": "imagegen2", "timeout": 7200}
 EXE = {"name": "exe", "kmodel": "exe", "timeout": 7200}
+BWT = {"name": "bwt", "kmodel": "bwt", "timeout": 7200}
 LZP = {"name": "lzp", "kmodel": "lzp", "timeout": 3600}
 FSD = {"name": "fsd", "kmodel": "fsd", "timeout": 3600}
 SRT = {"name": "srt", "kmodel": "srt", "timeout": 3600}
@@ -134,9 +135,12 @@ PROPS["C03"] = {
     "facts": ["GoSites", "Consts"],
     "theorems": T(M03F, "C03_every_panic_site_recovered", "C03_facts_nonvacuous")
                 + T(M07, "C07_dec_progress", "C07_dec_measure_mono", "C07_dec_measure_init", "C07_dec_cancel_stable")
-                + T("Kanzi.Properties.C03_bound", "C03_frame_bound", "C03_frame_bound_linear") + T(MJOBS, "C05_bwt_chunks_covered") + T(MCT, "io_consts"),
+                + T("Kanzi.Properties.C03_bound", "C03_frame_bound", "C03_frame_bound_linear") + T(MJOBS, "C05_bwt_chunks_covered") + T(MCT, "io_consts")
+                + T("Kanzi.Properties.C13_bwt", "C13_bwt_total", "C13_bwt_total_biPSI", "C13_bwt_total_mergeTPSI")
+                + T("Kanzi.Properties.C13_rlt", "C13_rlt_total") + T("Kanzi.Properties.C13_fsd", "C13_fsd_total") + T("Kanzi.Properties.C13_exe", "C13_exe_total")
+                + T("Kanzi.Properties.C13_bwts", "C13_bwts_total") + T("Kanzi.Properties.C12_huffman", "C12_huf_decoder_machine"),
     "streams": [IMAGE, JOBS, SR, FUZZDEC],
-    "level_text": "PARTIAL PROOF. Proved: (1) every `go` statement of the library spawns a function with a deferred recover and the caller-goroutine entry points recover (theorem by `decide` over Generated/GoSites.lean, re-extracted from /repo's AST on every run, so a new unrecovered goroutine breaks the proof); (2) the decode hand-off protocol has no deadlock or endless wait for any number of tasks and any failure placement (C07_dec_progress etc.); (3) a task never allocates for or reads a frame longer than a bound that depends on the block size only (C03_frame_bound over the frame parser that the image stream compares with the real Reader on damaged and cut streams). NOT proved: termination and memory safety inside each codec's Inverse/Read on attacker-controlled data; those are only searched (fuzzdec: structure-aware mutations - re-checksummed headers, forged lengths, forged codec headers, splices, truncations - decoded in child processes with a watchdog).",
+    "level_text": "PARTIAL PROOF. Proved: (1) every `go` statement of the library spawns a function with a deferred recover and the caller-goroutine entry points recover (theorem by `decide` over Generated/GoSites.lean, re-extracted from /repo's AST on every run, so a new unrecovered goroutine breaks the proof); (2) the decode hand-off protocol has no deadlock or endless wait for any number of tasks and any failure placement (C07_dec_progress etc.); (3) a task never allocates for or reads a frame longer than a bound that depends on the block size only (C03_frame_bound over the frame parser that the image stream compares with the real Reader on damaged and cut streams). (4) several decoders are proved TOTAL on arbitrary (attacker-controlled) input: RLT, MM, EXE and BWTS Inverse never index out of range, BWTBlockCodec.Inverse returns a block or an error on any input (C13_*_total), the Huffman table decoder stays inside its buffer on corrupted payloads (C12_huf_decoder_machine); for SRT, LZ, LZP, PACK/DNA and UTF the exact malformed inputs on which Inverse faults are theorems (recovered by the task). NOT proved: termination and memory safety of ROLZ/ROLZX, TEXT and the entropy decoders' arithmetic on attacker-controlled data; those are only searched (fuzzdec: structure-aware mutations - re-checksummed headers, forged lengths, forged codec headers, splices, truncations - decoded in child processes with a watchdog).",
     "level_note": BASE_NOTE + "The syntactic fact extractor harness/cmd/kv/facts_ast.go (go/parser; one level of callee resolution; self-tested). Codec internals are outside the model.",
     "assumptions": ["a deferred recover at the top of every spawned function converts every panic of that goroutine into a task error", "codec Inverse/Read loops terminate (searched, not proved)"],
 }
@@ -258,7 +262,7 @@ PROPS["C12"] = {
 
 PROPS["C13"] = {
     "title": "Transforms: exact inverse pairs, in bounds, clean decline", "design_ref": "5.13", "level": "proof",
-    "technique": "PARTIAL Lean proof: Null, ZRLT, SBRT (all modes), RLT (incl. totality of Inverse on arbitrary input), SRT, PACK/DNA (alias codec), LZ/LZX, LZP, MM, UTF, EXE, BWTS (inverse) and the transform sequence with skip flags proved as inverse pairs with output bounds; byte-identical differential tie; all 19 transforms searched directly with canaries",
+    "technique": "PARTIAL Lean proof: Null, ZRLT, SBRT (all modes), RLT (incl. totality of Inverse on arbitrary input), SRT, PACK/DNA (alias codec), LZ/LZX, LZP, MM, UTF, EXE, BWT and BWTS (inverse algorithms against the spec of the suffix sort) and the transform sequence with skip flags proved as inverse pairs with output bounds; byte-identical differential tie; all 19 transforms searched directly with canaries",
     "facts": ["Consts"],
     "theorems": T(M13, "C13_null", "C13_zrlt", "C13_zrlt_bytes", "C13_zrlt_no_wrap", "C13_sbrt", "C13_sequence", "C13_sequence_plain", "C13_sequence_all_declined", "C13_sequence_mode_byte", "C13_sequence_len", "C13_sequence_small", "C13_sequence_dst")
                 + T("Kanzi.Properties.C13_rlt", "C13_rlt", "C13_rlt_total", "C13_rlt_bytes", "C13_rlt_shorter")
@@ -273,10 +277,11 @@ PROPS["C13"] = {
                     "C13_bwts_isLyndon", "C13_bwts_suffixArray", "C13_bwts_inverse_declines", "C13_bwts_forward_small")
                 + T("Kanzi.Properties.C13_exe", "C13_exe_x86_jump", "C13_exe_x86", "C13_exe_arm_branch", "C13_exe_arm", "C13_exe", "C13_exe_total", "C13_exe_total_parts", "C13_exe_bytes", "C13_exe_ctx",
                     "C13_exe_consts", "C13_exe_max_encoded_len")
+                + T("Kanzi.Properties.C13_bwt", "C13_bwt_chunks", "C13_bwt_header", "C13_bwt_header_width", "C13_bwt_header_reject", "C13_bwt_forward_fits", "C13_bwt_inverse_mergeTPSI", "C13_bwt_inverse_biPSI", "C13_bwt_inverse_biPSI_tables", "C13_bwt_roundtrip_small", "C13_bwt_roundtrip_big", "C13_bwt_total_mergeTPSI", "C13_bwt_total_biPSI", "C13_bwt_total", "C13_bwt_tasks_disjoint")
                 + T("Kanzi.Properties.C13_lzp", "C13_lzp", "C13_lzp_sync", "C13_lzp_total", "C13_lzp_bytes", "C13_lzp_shorter")
                 + T("Kanzi.Properties.C13_fsd", "C13_fsd", "C13_fsd_total", "C13_fsd_bytes", "C13_fsd_any_choice", "C13_fsd_zigzag", "C13_fsd_zigzag_delta") + T(MCT, "transform_consts", "io_consts", "rlt_consts"),
-    "streams": [TRSMALL, RLT, SRT, ALIAS, LZ, LZP, FSD, UTF, BWTS, EXE, TRDIRECT],
-    "level_text": "PARTIAL PROOF. Proved for all blocks: Null, ZRLT (output <= MaxEncodedLen, inverse restores), SBRT in every mode; the transform sequence for up to 8 stages and every pattern of declining stages (skip flags in the mode byte or the extra byte recover exactly; all-declined leaves the block; composed MaxEncodedLen bounds the output). Models tied by byte-identical outputs on tens of thousands of blocks. RLT is modelled completely (escape selection, DetectSimpleType, both early declines, 1/2/3-byte run lengths, pending byte, tail) and proved: accepted blocks are strictly shorter, fit MaxEncodedLen and are restored by Inverse into any destination >= the original length, and NEITHER direction can index out of range - Inverse on ARBITRARY input returns ok or a clean error (C13_rlt, C13_rlt_total, C13_rlt_shorter); byte-exact rlt stream (both defects F28/F29 are flagged on the pre-fix file). SRT is modelled completely (Shell sort of the symbols proved to be a sorting permutation, 1..5-byte varint header, rank coding): for every block below 2^31 bytes Forward never declines or faults, its output is at most len+1028 <= MaxEncodedLen bytes (len <= 2^30) and Inverse restores the block (C13_srt, C13_srt_len, C13_srt_size_sharp); Inverse cannot fault on a well-formed header (C13_srt_total_inverse_partial - PARTIAL: on malformed input it DOES index out of range, proved as C13_srt_inverse_faults_*; such faults are outside C13 and are recovered by the decoding task, see DESIGN §6 observations); byte-exact srt stream. The alias codec (PACK and DNA) is modelled completely (one-symbol, 2-bit and 4-bit packing, the digram path with its order-1 histogram, merge sort and alias map, every decline, the dataType write-back): accepted blocks are strictly shorter, fit MaxEncodedLen and are restored exactly for both variants and every hint; correctness holds for ANY injective alias map onto unused bytes (C13_alias_any_injective_map); Forward never faults, Inverse never faults on a Forward output, and on arbitrary input it faults exactly when the decidable predicate invSafe is false (C13_alias_total; those malformed-input faults are observations, recovered by the decoding task); byte-exact alias stream. LZP is modelled completely (uint32 context hash, 65536-entry position table, 254-step length coding, both copy branches): accepted blocks are restored by Inverse, and the encoder and decoder hash tables and contexts are proved equal at EVERY step (C13_lzp, C13_lzp_sync); Forward never faults; Inverse on arbitrary input returns data, a clean error or exactly one of two index faults whose conditions are proved (observations). MM (fixed-step delta codec) is modelled completely incl. the magic-number test, the three-window entropy sampling with the real log2 tables and the delta/xor choice: round trip for every (distance, mode) choice (C13_fsd_any_choice), accepted blocks fit and are restored (C13_fsd), and BOTH directions are total - Inverse cannot fault on any input (C13_fsd_total); zigzag tables proved mutually inverse. Byte-exact lzp and fsd streams. LZ / LZX (the LZ77 codec, bitstream version 6) is modelled completely - both 64-bit hash functions, hash table, lazy matching, repeat distances, token / length / distance coding in four sections, every decline; the decoder with its 16-byte overshooting copy loop - and proved: the 1/3/4-byte length coding is an inverse pair below 2^24+255 and wraps beyond (the cause of F31: C13_lz_lengths, C13_lz_lengths_wrap); the decoder is correct for EVERY valid token stream (C13_lz_format); every stream the encoder emits is a valid token stream denoting the block (C13_lz_forward_valid: no claim about match quality); hence Inverse(Forward b) = b, within MaxEncodedLen (C13_lz, C13_lz_bound); Forward never faults - incl. the never-grown token buffer, which is large enough only because both hashes are injective in the fifth byte (C13_lz_hash_fifth_byte) - and Inverse never faults on a Forward output (C13_lz_total); faults of Inverse on forged input are observations (the model is the exact no-panic predicate: C13_lz_inverse_fuel_partial). Byte-exact lz stream. UTF (code point aliasing) is modelled completely (validation tables, head / tail bytes, BOM test, 32768-symbol limit, ranking sort, both unpack variants) and proved after the repair F41: pack/unpack is lossless on every accepted sequence (C13_utf_pack), accepted blocks are strictly shorter and restored exactly for every hint (C13_utf), Forward never faults, Inverse never faults on a Forward output and its exact fault condition on forged input is a theorem (C13_utf_total); correctness holds for any injective ranking. BWTS (bijective BWT): the INVERSE is modelled completely and proved against the mathematical definition - Lyndon factorisation (existence and Chen-Fox-Lyndon uniqueness, C13_bwts_lyndon), rotations of the factors sorted by the order of infinite powers (C13_bwts_matrix), and the Gil-Scott/Kufleitner theorem in full: bwtsInverse (bwtsSpec s) = s for every block, the inverse is total on EVERY byte string and is a bijection (C13_bwts_inverse, C13_bwts_total, C13_bwts_bijective); the Forward (suffix sort by DivSufSort + Lyndon repair) is tied to the definition only by the bwts stream (real Forward = bwtsSpec = an independent naive Go reference, exhaustive small alphabets, Forward(Inverse x) = x on arbitrary strings), not by proof. EXE (executable filter) is modelled completely as repaired by F39/F40 (ELF32/64 LE/BE, PE and Mach-O header parsing with int64 wrap-around and every bounds check, the heuristic scan, x86 CALL/JMP/Jcc and ARM64 B/BL rewriting with escapes, the legacy v2 inverse): every operand / branch word survives encode-decode (C13_exe_x86_jump, C13_exe_arm_branch), the section transforms are inverse pairs for EVERY byte sequence and every code range the parser can return (C13_exe_x86, C13_exe_arm), the whole transform round-trips within MaxEncodedLen (C13_exe), and BOTH directions are total: Forward never faults on any bytes (headers are attacker-controlled on the compression side too) and Inverse never faults on any input (C13_exe_total); 49 constants tied by decide. NOT modelled: BWT, ROLZ/ROLZX, TEXT (slices in progress) - searched directly on the real code (trdirect: every transform and the CLI chains, pipeline buffer sizes with canaries, input-intact checks, data-type hints, all data shapes).",
+    "streams": [TRSMALL, RLT, SRT, ALIAS, LZ, LZP, FSD, UTF, BWT, BWTS, EXE, TRDIRECT],
+    "level_text": "PARTIAL PROOF. Proved for all blocks: Null, ZRLT (output <= MaxEncodedLen, inverse restores), SBRT in every mode; the transform sequence for up to 8 stages and every pattern of declining stages (skip flags in the mode byte or the extra byte recover exactly; all-declined leaves the block; composed MaxEncodedLen bounds the output). Models tied by byte-identical outputs on tens of thousands of blocks. RLT is modelled completely (escape selection, DetectSimpleType, both early declines, 1/2/3-byte run lengths, pending byte, tail) and proved: accepted blocks are strictly shorter, fit MaxEncodedLen and are restored by Inverse into any destination >= the original length, and NEITHER direction can index out of range - Inverse on ARBITRARY input returns ok or a clean error (C13_rlt, C13_rlt_total, C13_rlt_shorter); byte-exact rlt stream (both defects F28/F29 are flagged on the pre-fix file). SRT is modelled completely (Shell sort of the symbols proved to be a sorting permutation, 1..5-byte varint header, rank coding): for every block below 2^31 bytes Forward never declines or faults, its output is at most len+1028 <= MaxEncodedLen bytes (len <= 2^30) and Inverse restores the block (C13_srt, C13_srt_len, C13_srt_size_sharp); Inverse cannot fault on a well-formed header (C13_srt_total_inverse_partial - PARTIAL: on malformed input it DOES index out of range, proved as C13_srt_inverse_faults_*; such faults are outside C13 and are recovered by the decoding task, see DESIGN §6 observations); byte-exact srt stream. The alias codec (PACK and DNA) is modelled completely (one-symbol, 2-bit and 4-bit packing, the digram path with its order-1 histogram, merge sort and alias map, every decline, the dataType write-back): accepted blocks are strictly shorter, fit MaxEncodedLen and are restored exactly for both variants and every hint; correctness holds for ANY injective alias map onto unused bytes (C13_alias_any_injective_map); Forward never faults, Inverse never faults on a Forward output, and on arbitrary input it faults exactly when the decidable predicate invSafe is false (C13_alias_total; those malformed-input faults are observations, recovered by the decoding task); byte-exact alias stream. LZP is modelled completely (uint32 context hash, 65536-entry position table, 254-step length coding, both copy branches): accepted blocks are restored by Inverse, and the encoder and decoder hash tables and contexts are proved equal at EVERY step (C13_lzp, C13_lzp_sync); Forward never faults; Inverse on arbitrary input returns data, a clean error or exactly one of two index faults whose conditions are proved (observations). MM (fixed-step delta codec) is modelled completely incl. the magic-number test, the three-window entropy sampling with the real log2 tables and the delta/xor choice: round trip for every (distance, mode) choice (C13_fsd_any_choice), accepted blocks fit and are restored (C13_fsd), and BOTH directions are total - Inverse cannot fault on any input (C13_fsd_total); zigzag tables proved mutually inverse. Byte-exact lzp and fsd streams. LZ / LZX (the LZ77 codec, bitstream version 6) is modelled completely - both 64-bit hash functions, hash table, lazy matching, repeat distances, token / length / distance coding in four sections, every decline; the decoder with its 16-byte overshooting copy loop - and proved: the 1/3/4-byte length coding is an inverse pair below 2^24+255 and wraps beyond (the cause of F31: C13_lz_lengths, C13_lz_lengths_wrap); the decoder is correct for EVERY valid token stream (C13_lz_format); every stream the encoder emits is a valid token stream denoting the block (C13_lz_forward_valid: no claim about match quality); hence Inverse(Forward b) = b, within MaxEncodedLen (C13_lz, C13_lz_bound); Forward never faults - incl. the never-grown token buffer, which is large enough only because both hashes are injective in the fifth byte (C13_lz_hash_fifth_byte) - and Inverse never faults on a Forward output (C13_lz_total); faults of Inverse on forged input are observations (the model is the exact no-panic predicate: C13_lz_inverse_fuel_partial). Byte-exact lz stream. UTF (code point aliasing) is modelled completely (validation tables, head / tail bytes, BOM test, 32768-symbol limit, ranking sort, both unpack variants) and proved after the repair F41: pack/unpack is lossless on every accepted sequence (C13_utf_pack), accepted blocks are strictly shorter and restored exactly for every hint (C13_utf), Forward never faults, Inverse never faults on a Forward output and its exact fault condition on forged input is a theorem (C13_utf_total); correctness holds for any injective ranking. BWTS (bijective BWT): the INVERSE is modelled completely and proved against the mathematical definition - Lyndon factorisation (existence and Chen-Fox-Lyndon uniqueness, C13_bwts_lyndon), rotations of the factors sorted by the order of infinite powers (C13_bwts_matrix), and the Gil-Scott/Kufleitner theorem in full: bwtsInverse (bwtsSpec s) = s for every block, the inverse is total on EVERY byte string and is a bijection (C13_bwts_inverse, C13_bwts_total, C13_bwts_bijective); the Forward (suffix sort by DivSufSort + Lyndon repair) is tied to the definition only by the bwts stream (real Forward = bwtsSpec = an independent naive Go reference, exhaustive small alphabets, Forward(Inverse x) = x on arbitrary strings), not by proof. EXE (executable filter) is modelled completely as repaired by F39/F40 (ELF32/64 LE/BE, PE and Mach-O header parsing with int64 wrap-around and every bounds check, the heuristic scan, x86 CALL/JMP/Jcc and ARM64 B/BL rewriting with escapes, the legacy v2 inverse): every operand / branch word survives encode-decode (C13_exe_x86_jump, C13_exe_arm_branch), the section transforms are inverse pairs for EVERY byte sequence and every code range the parser can return (C13_exe_x86, C13_exe_arm), the whole transform round-trips within MaxEncodedLen (C13_exe), and BOTH directions are total: Forward never faults on any bytes (headers are attacker-controlled on the compression side too) and Inverse never faults on any input (C13_exe_total); 49 constants tied by decide. BWT: the forward suffix sort (DivSufSort) is represented by its SPEC (suffix array of the block, primary indexes of the 8 chunks) and tied to the real Forward by the stream (every output byte and index vs the spec on small blocks and vs an independent Go suffix-array reference up to 1 MiB); BOTH inverse algorithms are modelled faithfully and PROVED against the spec for every block: inverseMergeTPSI (blocks <= 4 MiB) and the bi-gram inverseBiPSIv2 (larger blocks, any job count, destination of exactly the block size included - after fix F46) (C13_bwt_inverse_mergeTPSI, C13_bwt_inverse_biPSI, C13_bwt_roundtrip_small/big); the block header of BWTBlockCodec round-trips and forged headers are rejected (C13_bwt_header*); BWTBlockCodec.Inverse on a fresh instance is total on ANY input (C13_bwt_total: the fixes F24/F30 as theorems); the tasks of the parallel inverse write pairwise disjoint index ranges (C13_bwt_tasks_disjoint). NOT modelled: ROLZ/ROLZX, TEXT (slices in progress), DivSufSort itself - searched directly on the real code (trdirect: every transform and the CLI chains, pipeline buffer sizes with canaries, input-intact checks, data-type hints, all data shapes).",
     "level_note": BASE_NOTE + "'input left unmodified' is immediate in the value-level model and checked on the real buffers by the trdirect oracle.",
     "assumptions": [],
 }
@@ -329,9 +334,10 @@ PROPS["C18"] = {
     "title": "Independent streams do not interfere and internals are race-free", "design_ref": "5.18", "level": "proof",
     "technique": "PARTIAL Lean proof: no package-level variable is written after init (decided over a fact base regenerated from /repo) + protocol mutual-exclusion theorems; data races observed with the race detector under perturbed schedules",
     "facts": ["Globals"],
-    "theorems": T(M18F, "C18_globals_readonly", "C18_global_aliases_reviewed", "C18_facts_nonvacuous") + T(M07, "C07_enc_mutex", "C07_dec_mutex"),
+    "theorems": T(M18F, "C18_globals_readonly", "C18_global_aliases_reviewed", "C18_facts_nonvacuous") + T(M07, "C07_enc_mutex", "C07_dec_mutex")
+                + T("Kanzi.Properties.C13_bwt", "C13_bwt_tasks_disjoint"),
     "streams": [RACE], "race": True,
-    "level_text": "PARTIAL PROOF. Proved: (1) every package-level variable of the library is written only by init / its own initialiser, and every place where a reference into a global table escapes is pinned and reviewed (theorems by `decide` over Generated/Globals.lean, re-extracted from /repo's AST on every run); (2) the shared bitstream is accessed by at most one task at a time for every N and every interleaving (C07 mutex theorems). NOT proved: the Go memory model itself and accesses inside codecs (e.g. inverse BWT workers writing disjoint ranges) - observed only, with the race detector under hook-perturbed schedules.",
+    "level_text": "PARTIAL PROOF. Proved: (1) every package-level variable of the library is written only by init / its own initialiser, and every place where a reference into a global table escapes is pinned and reviewed (theorems by `decide` over Generated/Globals.lean, re-extracted from /repo's AST on every run); (2) the shared bitstream is accessed by at most one task at a time for every N and every interleaving (C07 mutex theorems). (3) the worker goroutines of the parallel inverse BWT write pairwise disjoint ranges of the destination for every job count and every block (C13_bwt_tasks_disjoint, over the model of inverseBiPSIv2 that the bwt stream ties to the real code; before fix F46 they did not: two tasks wrote the same byte when the chunk size was odd, which the race detector never reported). NOT proved: the Go memory model itself and accesses inside the other codecs - observed only, with the race detector under hook-perturbed schedules.",
     "level_note": BASE_NOTE + "The syntactic extractor lists writes through aliases as aliases, it does not prove their absence; race detector for the observed part.",
     "assumptions": ["reads of immutable package-level tables need no synchronisation", "writes through the reviewed aliases do not occur (reviewed by hand, pinned by C18_global_aliases_reviewed)"],
 }
@@ -352,7 +358,7 @@ PROPS["C19"] = {
     "assumptions": ["close(2) reports deferred write errors", "unlink is atomic"],
 }
 
-HOOK_COMMITS = ["a321cbc", "4ed9fca", "2a9b696", "833f0d9"]
+HOOK_COMMITS = ["a321cbc", "4ed9fca", "2a9b696", "833f0d9", "d190990"]
 
 # properties not (yet) claimed: reason shown in MANIFEST.not_applicable
 NOT_APPLICABLE = {}
